@@ -25,6 +25,8 @@ impl RoocFunction for NumericRange {
                 let from = from.as_integer_cast(context, fn_context)?;
                 let to = to.as_integer_cast(context, fn_context)?;
                 let to_inclusive = to_inclusive.as_boolean(context, fn_context)?;
+                #[cfg(feature = "verif_hooks")]
+                crate::verif_hooks::note_range(from, to, to_inclusive);
                 if from >= 0 && to >= 0 {
                     let from = from as usize;
                     let to = to as usize;
